@@ -18,10 +18,10 @@ Definition process_text (s : st) : st :=
   if negb (process s) then s else
   if asis s then let '(t, s1) := inlines_text (text s) s in s1 <| raw ::= fun r => r ++ t |> else
   let s1 := if negb (par s) then reopen_spanning ((begin_paragraph s) <| par := true |>)
-            else if ws s then s <| buf ::= fun b => b ++ [10] |> else s in
+            else if ws s then s <| buf ::= cons [10] |> else s in
   let '(t, s2) := render_text (text s1) s1 in
   let s3 := match t with [] => s2 | _ => if has_blank_line t then err "empty line" s2 else s2 end in
-  s3 <| buf ::= fun b => b ++ t |> <| ws := true |>.
+  s3 <| buf ::= cons t |> <| ws := true |>.
 
 Definition store_id (id : str) (i : idinfo) (s : st) : st :=
   let s1 := if has_key id (ids s) then let q := quiet s in (err "already used id" (s <| quiet := false |>)) <| quiet := q |> else s in
@@ -72,7 +72,7 @@ Definition macro_bf (s : st) : st :=
     | Some f =>
         let '(fs, s4) := formats_of f s3 in
         let s5 := check_formats fs s4 in
-        if not_export_format fs s5 then mk true tag s5
+        if not_export_format fs s5 then (mk true tag s5) <| elided := true |>
         else let s6 := mk false tag s5 in if par s6 then (begin_phrasing (flag "ns" o) s6) <| ws := false |> else s6
     | None => let s6 := mk false tag s3 in if par s6 then (begin_phrasing (flag "ns" o) s6) <| ws := false |> else s6
     end
@@ -85,7 +85,7 @@ Definition macro_ef (s : st) : st :=
   | None => err "no corresponding Bf" s2
   | Some b =>
     let s3 :=
-      if bf_ignore b then s2 else
+      if bf_ignore b then s2 <| elided := true |> else
       let t := if str_eqb (bf_tag b) (R "escape") then escape_fn s2 (raw s2) else raw s2 in
       let s' := w t s2 in
       if par s' && negb (flag "ns" o) then s' <| ws := true |>
@@ -98,7 +98,7 @@ Definition macro_ft (s : st) : st :=
   let '(skip, s2) := match opt "f" o with
                      | Some f => let '(fs, s') := formats_of f s1 in let s'' := check_formats fs s' in (not_export_format fs s'', s'')
                      | None => (false, s1) end in
-  if skip then s2 else
+  if skip then s2 <| elided := true |> else
   match opt "f" o, opt "t" o with
   | None, None => err "one of -f option or -t option at least required" s2
   | _, ot =>
